@@ -588,7 +588,7 @@ type failingReader struct {
 
 func (f *failingReader) Read(p []byte) (int, error) {
 	if f.pos >= len(f.data) {
-		return 0, fmt.Errorf("verif: injected body reader failure")
+		return 0, io.ErrUnexpectedEOF // (what net/http's body reader reports when the connection is cut)
 	}
 	n := copy(p, f.data[f.pos:])
 	f.pos += n
@@ -725,7 +725,11 @@ func (x *Exec) buildUpload(op Op) *Req {
 		r.CLen = -1
 	}
 	if f := op.I("failAt"); op.Has("failAt") && f >= 0 {
-		k := map[int]int{0: 0, 1: 1, 2: len(wire) / 2, 3: len(wire) - 1}[f]
+		k := map[int]int{0: 0, 1: 1, 2: len(wire) / 2, 3: len(wire) - 1, 4: len(wire)}[f]
+		if f == 4 && target == "chunked" {
+			// every payload byte delivered, the terminating chunk never arrives
+			k = len(awsChunked(sent, []int{len(sent)/3 + 1, len(sent) / 2}, false))
+		}
 		if k > len(wire) {
 			k = len(wire)
 		}
